@@ -199,12 +199,7 @@ def run(F, R, tier):
                     r2.require(oo == {("call", UTL + "::MaybeEncodedPayload::encode_if_b64")}, (fn, "emitted-payload"), "the payload kept for emission is not the one that was signed: %s" % sorted(map(str, oo)))
     # b64 defaults: encoder (extract_b64 → DEFAULT_B64) and decoder claims rule agree
     enc_d = c01.extract_b64_default(F)
-    dh = F.hir(DEC + "::Decoder::decode_signature")
-    dec_d = None
-    if dh:
-        for n_ in H.walk(H.root(dh)):
-            if n_.get("k") == "if" and n_.get("else") is not None and {H.ctor_class(n_["then"])[0], H.ctor_class(n_["else"])[0]} == {"Owned", "Borrowed"}:
-                dec_d = c01._b64_default(F, n_["cond"])
+    dec_d = c01.decoder_b64_default(F)
     eh = F.hir(UTL + "::MaybeEncodedPayload::encode_if_b64")
     uses_extract = eh is not None and SER + "::extract_b64" in H.called_fns(H.root(eh))
     r2.site("b64 default: encoder extract_b64 → %s (used by encode_if_b64: %s), decoder claims rule → %s" % (enc_d, uses_extract, dec_d))
